@@ -87,3 +87,42 @@ Example cyclic_join_refuted :
   jenabled jfixed c 0 = false /\ jenabled jfixed c 1 = false /\
   jfinished c 0 = false /\ jfinished c 1 = false /\ jmutex_blocked c 0 = true /\ jmutex_blocked c 1 = true.
 Proof. vm_compute. repeat split; reflexivity. Qed.
+
+(* ---------------------------------------------------------------- no deadlock on the mutexes *)
+
+(* the section of a Join thread that holds p.mu and locks the promise it looks at can always run when that
+   promise's mu is free (the traversal switch is exhaustive) *)
+Lemma join_par_enabled : forall v c t th,
+  j_par th <> j_cur th -> free c (j_par th) = true -> sec_join_par v c t th <> None.
+Proof.
+  intros v c t th Hne Hfree. unfold sec_join_par.
+  destruct (Nat.eqb_spec (j_par th) (j_cur th)); [contradiction|]. rewrite Hfree. simpl.
+  destruct (p_caller (getp c (j_par th))) eqn:Ec.
+  - destruct (negb (jv_alloc_table v) && negb (p_hastable (getp c (j_par th))) &&
+              negb match p_clients (getp c (j_cur th)) with [] => true | _ :: _ => false end); discriminate.
+  - destruct (is_pres (getp c (j_par th))) eqn:E1; [discriminate|].
+    destruct (is_pjoin (getp c (j_par th))) eqn:E2; [discriminate|].
+    destruct (p_is_resolved (getp c (j_par th))) eqn:E3; [discriminate|].
+    destruct (p_next (getp c (j_par th))) eqn:E4; [discriminate|].
+    exfalso. unfold is_pres, p_is_resolved, p_is_joined in *. rewrite Ec, E2, E4 in *. simpl in *.
+    destruct (no_signals (getp c (j_par th))); discriminate.
+Qed.
+
+(* Under the Join precondition: if some promise's mu is held (so that threads may be waiting for it), some thread
+   can take a step.  Hence no operation is blocked forever on a Promise.mu: the lock order p, then the promise
+   joined, is acyclic.  (PARTIAL no_stuck for chains: the channel waits are not covered here.) *)
+Theorem join_no_mutex_deadlock : forall v np ops c, jv_alloc_table v = true -> join_ordered ops ->
+  jreach v np ops c -> forall k t, p_mu (getp c k) = Some t -> exists t', jenabled v c t' = true.
+Proof.
+  intros v np ops c Hv Ho Hr.
+  destruct (join_forest v np ops c Ho Hr) as [_ Hpar].
+  destruct (join_mu_discipline v np ops c Hv Hr) as [HM _].
+  intros k. induction k as [k IH] using lt_wf_ind. intros t Hmu.
+  destruct (HM k t Hmu) as [th [Hth [Hpc Hcur]]].
+  assert (Hlt : (j_par th < j_cur th)%nat) by (apply (Hpar t th Hth); rewrite Hpc; reflexivity).
+  destruct (p_mu (getp c (j_par th))) as [t2|] eqn:E.
+  - apply (IH (j_par th) ltac:(lia) t2 E).
+  - exists t. unfold jenabled, jstep. rewrite Hth. unfold jstep_thread. rewrite Hpc.
+    destruct (sec_join_par v c t th) eqn:Es; [reflexivity|].
+    exfalso. apply (join_par_enabled v c t th); [lia| |exact Es]. unfold free. rewrite E. reflexivity.
+Qed.
